@@ -108,6 +108,19 @@ def run(ctx):
             return "trip" if (not is_bbr or not bo) else "pass"
         n, ncon, mism = run_table(ctx, "C09.decision", dec.path + "#" + vname, cfg, arm_paths, outcome, expected, fix_disc={"metric_type": vi})
         used_pair = any(l[0] == "cmp" and {l[2], l[3]} == {role, "threshold"} for p in arm_paths for l in _cmps(p))
+        # neither side of that comparison may go through a lossy cast (a float threshold truncated to an integer trips at floor(T))
+        lossy = []
+        sl_d = Slicer(f, dec)
+        for blk in dec.blocks:
+            for st in blk["stmts"]:
+                if st["k"] == "assign" and st["rv"]["k"] == "bin" and st["rv"]["op"] in D.CMP_OPS:
+                    aa, ab = sl_d.of_operand(st["rv"]["a"]), sl_d.of_operand(st["rv"]["b"])
+                    if {cls(aa), cls(ab)} == {role, "threshold"}:
+                        lossy += sorted(x for x in (aa | ab) if x in ("cast:FloatToInt", "cast:narrow"))
+        if lossy:
+            ctx.instance("C09.operands/lossless", "%s arm %s" % (dec.path, vname), sorted(set(lossy)), "no truncating cast on either operand", False, cfg)
+            ctx.violation("C09.operands", "C09.operands|%s|%s" % (vname, ",".join(sorted(set(lossy)))),
+                          "arm %s compares through a truncating cast (%s): a fractional threshold trips at floor(T) instead of at the threshold" % (vname, sorted(set(lossy))), dec.loc(), config=cfg)
         okk = not mism and ncon > 0 and used_pair
         ctx.instance("C09.decision", "%s arm %s" % (dec.path, vname),
                      {"rows": n, "constrained": ncon, "mismatches": mism[:3], "paths": len(arm_paths), "compares": "%s vs threshold: %s" % (role, used_pair)},
